@@ -64,6 +64,7 @@ structure TopG (scope : List String) (ρ : Env) (σ0 : FState) (r : String) (v :
   /-- qubits in use when the statement started are not written -/
   frame : ∀ q, ¬ Avail s q → cur σ0 t1 q = cur σ0 s q
   akeep : ∀ a ∈ s.qc.anc, a ∈ t1.qc.anc
+  fkeep : ∀ q ∈ t1.qc.free, q ∈ s.qc.free
   /-- a right-hand side without constants allocates ancillas only (and the qubit of a `_ret…` copy) -/
   alloc : nc = false → ∀ q, s.qc.numQubits ≤ q → q < t1.qc.numQubits → q ∈ t1.qc.anc ∨ q = iret
 
@@ -71,8 +72,8 @@ structure TopG (scope : List String) (ρ : Env) (σ0 : FState) (r : String) (v :
 theorem top_frame {Kn : String → Prop} {s t1 : CState} {D R C E : Nat → Prop} {iret : Nat} {nc : Bool}
     (fr : Fr Kn σ0 s s t1 D R C E) (hD : ∀ q, ¬ Avail s q → ¬ D q) (hE : nc = false → ∀ q, E q → q = iret) :
     (∀ q, ¬ Avail s q → cur σ0 t1 q = cur σ0 s q) ∧ (∀ a ∈ s.qc.anc, a ∈ t1.qc.anc) ∧
-    (nc = false → ∀ q, s.qc.numQubits ≤ q → q < t1.qc.numQubits → q ∈ t1.qc.anc ∨ q = iret) :=
-  ⟨fun q hq => fr.val q hq (hD q hq), fr.akeep, fun hn q h1 h2 => (fr.alloc q h1 h2).imp id (hE hn q)⟩
+    (∀ q ∈ t1.qc.free, q ∈ s.qc.free) ∧ (nc = false → ∀ q, s.qc.numQubits ≤ q → q < t1.qc.numQubits → q ∈ t1.qc.anc ∨ q = iret) :=
+  ⟨fun q hq => fr.val q hq (hD q hq), fr.akeep, fr.fkeep, fun hn q h1 h2 => (fr.alloc q h1 h2).imp id (hE hn q)⟩
 
 /-- no ancilla in use is left unmarked by a piece of compilation that started between two statements, except
 its result -/
@@ -106,11 +107,11 @@ theorem copyTop_g {scope : List String} {n r : String} {q a : Nat} {u : Unit} {s
   obtain ⟨gi2, fr2, pd2, tg2, ac, _⟩ := gateP (cs := [q]) (t := a) hcx gi1 rfl rfl
     (by intro c hc; have : c = q := by simpa using hc
         rw [this]; exact hnavq) pd
-  obtain ⟨f1, f2, f3⟩ := top_frame (nc := nc) (iret := a) (fr1.trans fr2)
+  obtain ⟨f1, f2, f4, f3⟩ := top_frame (nc := nc) (iret := a) (fr1.trans fr2)
     (fun x hx hh => hh.elim (fun h' => h') (fun h' => hx (h' ▸ hava)))
     (fun _ x hh => hh.elim (fun h' => h') (fun h' => h'.elim))
   refine ⟨gi2, pd2.nav, ?_, pd2.nm, pend_top bi (fr1.trans fr2) (fun _ hh => hh.elim (fun h' => h'.elim) (fun h' => h'.elim)),
-    f1, f2, f3⟩
+    f1, f2, f4, f3⟩
   rw [ac.cur_eq rfl σ0, hcur, bi.zero a hava]
   simp only [List.all_cons, List.all_nil, Bool.and_true, Bool.false_bne]
   rw [← hcur, (gi1.names n q hk hq).2.2, kval_scope bi.scopeOK hn]
@@ -141,14 +142,14 @@ theorem topSym_g {scope : List String} {n r : String} {iret : Nat} {s t : CState
       obtain ⟨t1, t2, t3⟩ := bi.names n _ hk hj
       refine ⟨bi.start.monoKn (fun _ h => h.1), bi.start.name_nav hk hj, by rw [t3, kval_scope bi.scopeOK hn],
         by rw [bi.nomark]; exact List.not_mem_nil, pend_top (Kn := Known scope) bi (Fr.refl (D := NoN) (R := NoN) (C := NoN) (E := NoN) _)
-          (fun _ hh => hh.elim), fun _ _ => rfl, fun _ h => h, fun _ q h1 h2 => absurd h2 (by omega)⟩
+          (fun _ hh => hh.elim), fun _ _ => rfl, fun _ h => h, fun _ h => h, fun _ q h1 h2 => absurd h2 (by omega)⟩
     · exact (run_throw_ok.mp h).elim
   have aliasq : ∀ {q : Nat}, dictGet? s.qc.qmap n = some q → TopG scope ρ σ0 r (ρ n) nc s s q := by
     intro q hj
     obtain ⟨t1, t2, t3⟩ := bi.names n _ hk hj
     exact ⟨bi.start.monoKn (fun _ h => h.1), bi.start.name_nav hk hj, by rw [t3, kval_scope bi.scopeOK hn],
       by rw [bi.nomark]; exact List.not_mem_nil, pend_top (Kn := Known scope) bi (Fr.refl (D := NoN) (R := NoN) (C := NoN) (E := NoN) _)
-        (fun _ hh => hh.elim), fun _ _ => rfl, fun _ h => h, fun _ q h1 h2 => absurd h2 (by omega)⟩
+        (fun _ hh => hh.elim), fun _ _ => rfl, fun _ h => h, fun _ h => h, fun _ q h1 h2 => absurd h2 (by omega)⟩
   unfold compileSymbol at h
   dsimp only at h
   split at h
@@ -196,11 +197,11 @@ theorem topSym_g {scope : List String} {n r : String} {iret : Nat} {s t : CState
           obtain ⟨gi2, fr2, pd2, tg2, ac, _⟩ := gateP (cs := [q]) (t := iret) hcx gi1 rfl rfl
             (by intro c hc; have : c = q := by simpa using hc
                 rw [this]; exact hnavq) pd
-          obtain ⟨f1, f2, f3⟩ := top_frame (nc := nc) (iret := iret) (fr1.trans fr2)
+          obtain ⟨f1, f2, f4, f3⟩ := top_frame (nc := nc) (iret := iret) (fr1.trans fr2)
             (fun x hx hh => hh.elim (fun h' => h') (fun h' => hx (h' ▸ hava)))
             (fun _ x hh => hh.elim (fun h' => h') (fun h' => h'.elim))
           refine ⟨gi2, pd2.nav, ?_, pd2.nm, pend_top bi (fr1.trans fr2)
-            (fun _ hh => hh.elim (fun h' => h'.elim) (fun h' => h'.elim)), f1, f2, f3⟩
+            (fun _ hh => hh.elim (fun h' => h'.elim) (fun h' => h'.elim)), f1, f2, f4, f3⟩
           rw [ac.cur_eq rfl σ0, hcur, bi.zero iret hava]
           simp only [List.all_cons, List.all_nil, Bool.and_true, Bool.false_bne]
           rw [t3', kval_scope bi.scopeOK hn]
@@ -225,9 +226,9 @@ theorem topExpr_g {scope : List String} {e : BExp} {r : String} {iret : Nat} {s 
     obtain ⟨gi, fr, hv, _⟩ := exprG (σ0 := σ0) (s0 := s) bi.knOK e hwf none sym h' bi.start
       (by intro d hd; cases hd) (fun hle => ⟨rfl, hl hle⟩) hs
     have res := hv rfl
-    obtain ⟨f1, f2, f3⟩ := top_frame (nc := hasConst e) (iret := iret) fr (fun _ _ hh => by cases hh)
+    obtain ⟨f1, f2, f4, f3⟩ := top_frame (nc := hasConst e) (iret := iret) fr (fun _ _ hh => by cases hh)
       (fun hn _ hh => by rw [hn] at hh; cases hh)
-    refine ⟨gi.monoKn (fun _ hh => hh.1), res.nav, res.val, ?_, pend_top bi fr (fun _ hh => hh), f1, f2, f3⟩
+    refine ⟨gi.monoKn (fun _ hh => hh.1), res.nav, res.val, ?_, pend_top bi fr (fun _ hh => hh), f1, f2, f4, f3⟩
     intro hm
     have hav := gi.marked_av0 hm
     exact (res.fresh hav).2 hm
